@@ -14,9 +14,10 @@ ALLOWED_AXIOMS = []
 SCOPE = ("partial: theorems of Properties/C11.v hold for every history of the modelled operations (lock, top-up, MsgLockTokens, lock-and-delegate, "
          "create-position-and-delegate, superfluid delegate / undelegate / unbond / undelegate-and-unbond incl. partial, begin-unlock (whole, partial, all, "
          "force), withdraw, time advance, end-block cleanup, epoch refresh with arbitrary new multipliers) over any number of validators, owners, denoms; "
-         "NOT covered by the theorems: slashing (x/superfluid/keeper/slash.go: the model function `slash` mirrors it for gamm-share locks and is compared "
-         "with the real app in the correspondence run, but it is an environment transition outside the histories the theorems quantify over; "
-         "supply neutrality is refuted under slashing: C11_supply_neutral_under_slash_refuted, finding C11-F2), x/staking is a "
+         "slashing (x/superfluid/keeper/slash.go): the model function `slash` mirrors it for gamm-share locks and is compared with the real app in the "
+         "correspondence run; the marker / unlock-refusal / withdraw-refusal / accumulator theorems hold for histories with slashes (fractions <= 1/2) in "
+         "between, the stake-tracking theorems (refresh_exact, drift) and supply neutrality are for slash-free histories only - supply neutrality is "
+         "refuted under slashing: C11_supply_neutral_under_slash_refuted, finding C11-F2; NOT covered: concentrated-share locks under slashing, x/staking is a "
          "hand model of an SDK module (bonded validators only, no unbonding queue, no rewards), exchange rate 1:1 is a hypothesis of refresh_exact and of the "
          "drift bound, removal of a superfluid asset / pool without OSMO (epoch hook returns early), governance parameter changes, LegacyDec range panics, "
          "the 1000-lock bound of WithdrawMaturedLocks, concentrated-liquidity position migration messages. The literal drift bound "
